@@ -151,7 +151,7 @@ def singular_jobs(r, tier):
              "x=1.0,y=2.0,z=2.0,t=0.0", "pt=0.0,phi=0.0,eta=0.0,mass=0.0", "x=3.0,y=4.0,theta=0.0,tau=1.0", "rho=5.0,phi=0.1,theta=3.141592653589793,t=10.0", "x=1.0,y=2.0,z=2.0,t=-4.0"]
     sing2 = ["x=0.0,y=0.0", "rho=0.0,phi=1.0", "x=-1.0,y=0.0", "rho=2.0,phi=3.141592653589793", "x=-1.0,y=-0.0", "px=0.0,py=0.0"]
     for toks, src, w in ((sing3, SING_SRC3, w3), (sing4, SING_SRC4, w4), (sing2, SING_SRC2, w2)):
-        for t_ in (toks if tier == "thorough" else r.sample(toks, min(len(toks), 5))):
+        for t_ in (toks if tier == "thorough" else toks[:2] + r.sample(toks[2:], min(len(toks) - 2, 3))):
             wtok = w.replace("x=", "px=").replace(",y=", ",py=") if t_.startswith(("px", "pt")) else w
             wtok = wtok.replace(",z=", ",pz=").replace(",t=", ",E=") if t_.startswith(("px", "pt")) else wtok
             jobs.append((src, ["W:" + t_, "W:" + wtok[2:]], "numpy-errors"))
